@@ -39,6 +39,12 @@ def run(ctx):
     if fn is None:
         ctx.violated("anchor:run", "FetchState::run not found (anchor missing)")
         return
+    from .c01 import run_roles
+    roles = run_roles(db, fn)
+
+    def is_role(place_op, role):
+        r_ = flow.root_place(fn, place_op)
+        return r_ is not None and roles.get(role) == r_[0]
     ups = rules.call_blocks(fn, UPD)
     ctx.floor("run:update", len(ups), 1, "repository::update call in FetchState::run")
     who = [(f, bb, None) for f, bb in db.call_sites(UPD)]
@@ -62,12 +68,12 @@ def run(ctx):
             rhs = cond[3]
             if rhs[0] == "phi":
                 thr_local = rhs[1]
-            ctx.check("flow:gate:set", lset is not None and fn["locals"][lset[0]][1] == "valid_delegates",
+            ctx.check("flow:gate:set", lset is not None and roles.get("valid_delegates") == lset[0],
                       "the set counted is the validated-delegate set", rules.where(fn, e_[0]), fn=fn)
     # threshold table
     if thr_local is None:
         for i, (ty, nm) in enumerate(fn["locals"]):
-            if nm == "threshold":
+            if i == roles.get("threshold"):
                 thr_local = i
     defs = flow.def_exprs(fn, thr_local) if thr_local is not None else []
     kinds = []
@@ -96,7 +102,7 @@ def run(ctx):
     # delegate arm: Behind => prune + not newly validated; Diverged => Err
     hdr, prunes = loop_parts(db, fn)
     vins = [bb for bb, t, c in db.calls(fn) if (c.get("n") or "").endswith("BTreeSet::insert") and
-            (flow.root_place(fn, t[2][0]) or (None,))[0] is not None and fn["locals"][flow.root_place(fn, t[2][0])[0]][1] == "valid_delegates"]
+            is_role(t[2][0], "valid_delegates")]
     ctx.floor("run:valid_delegates.insert", len(vins), 1, "valid_delegates.insert site")
 
     # every addition to the validated-delegate set that can happen once validation has started is itself validated:
@@ -108,8 +114,7 @@ def run(ctx):
         n = c.get("n") or ""
         if not t[2]:
             continue
-        r_ = flow.root_place(fn, t[2][0])
-        if r_ is None or fn["locals"][r_[0]][1] != "valid_delegates":
+        if not is_role(t[2][0], "valid_delegates"):
             continue
         if re.search(r"::(insert|extend|append|extend_from_slice|push|replace|get_or_insert_with)$", n) or "Extend" in n:
             adds.append(bb)
@@ -124,10 +129,10 @@ def run(ctx):
                   detail={"path": list(badv.values())[:1]}, fn=fn)
     # a failed delegate is taken out of the set
     fd = [bb for bb, t, c in db.calls(fn) if (c.get("n") or "").endswith("BTreeSet::insert") and t[2] and
-          (flow.root_place(fn, t[2][0]) or (None,))[0] is not None and fn["locals"][flow.root_place(fn, t[2][0])[0]][1] == "failed_delegates"]
+          is_role(t[2][0], "failed_delegates")]
     rm = [bb for bb, t, c in db.calls(fn) if (c.get("n") or "").endswith("BTreeSet::remove") and t[2] and
-          (flow.root_place(fn, t[2][0]) or (None,))[0] is not None and fn["locals"][flow.root_place(fn, t[2][0])[0]][1] == "valid_delegates"]
-    ctx.floor("run:failed_delegates.insert", len(fd), 2, "failed_delegates.insert sites")
+          is_role(t[2][0], "valid_delegates")]
+    ctx.floor("run:failed_delegates.insert", len(fd), 1, "failed_delegates.insert sites")
     for bb in fd:
         # within the iteration: header -> bb avoiding remove, and bb -> header avoiding remove, must not both exist
         pre = g.reach([tb for h in hdr for tb, _ in g.succ[h]], avoid_blocks=set(rm) | set(hdr))
@@ -202,7 +207,7 @@ def run(ctx):
         ctx.violated("anchor:direct", "repository::direct not found")
     else:
         wr = [(bb, fn_arg(di, bb)) for bb, t, c in db.calls(di) if (c.get("n") or "").endswith("git2::repo::Repository::reference")]
-        ctx.floor("direct:writes", len(wr), 3, "Repository::reference calls in repository::direct")
+        ctx.floor("direct:writes", len(wr), 2, "Repository::reference calls in repository::direct")
         forced = [bb for bb, force in wr if force == "1"]
         unforced = [bb for bb, force in wr if force == "0"]
 
@@ -214,7 +219,7 @@ def run(ctx):
             ok2, a2, _ = rules.dom_check(db, di, [bb], lambda f: f[0] == "variant" and f[4] and f[3] == "Allow" and "arg4" in nshow(f[1]))
             if not ((ok1 and a1) or (ok2 and a2)):
                 okf = False
-        ctx.check("table:direct:force", okf and len(forced) == 2,
+        ctx.check("table:direct:force", okf and len(forced) >= 1,
                   "an existing ref is overwritten only when the new target is Ahead, or under Policy::Allow", rules.where(di), fn=di)
         ok3, a3, _ = rules.dom_check(db, di, unforced, lambda f: f[0] == "variant" and f[4] and f[3] == "None" and "refname_to_id" in nshow(f[1]))
         ctx.check("table:direct:create", bool(ok3 and a3 and unforced), "force=false is used only when the ref did not exist", rules.where(di), fn=di)
